@@ -5,7 +5,9 @@ open VirVerif
 
 /-- `pdf <model> <k> rows…` → joint density per row;
 `reorder <n> order… <n> args…` → model-order row;
-`morder <n> <dim>` → integral order of marginal_pdf/cdf -/
+`morder <n> <dim>` → integral order of marginal_pdf/cdf;
+`ranges cdf <k> x…` | `ranges mcdf <n> <x>` | `ranges mpdf <n>` → the upper limits handed to nquad, in
+nquad argument order (`inf` = the range `(0, ∞)`, otherwise the bits of `x` = the range `(0, x)`) -/
 def handleC06 : Handler := fun st toks =>
   match toks with
   | "pdf" :: rest =>
@@ -31,6 +33,19 @@ def handleC06 : Handler := fun st toks =>
   | ["morder", n, dim] =>
     let o := marginalOrder n.toNat! dim.toNat!
     some ("OK " ++ " ".intercalate (o.map toString))
+  | "ranges" :: which :: rest =>
+    let out := fun (r : List (Range Float)) =>
+      some ("OK " ++ " ".intercalate (toString r.length :: r.map fun
+        | none => "inf"
+        | some x => tokOfF x))
+    match which, rest with
+    | "cdf", _ =>
+      match takeFloats rest with
+      | some (x, _) => out (cdfRanges x)
+      | none => some "ERR parse"
+    | "mcdf", [n, x] => out (marginalCdfRanges n.toNat! (fOfTok x))
+    | "mpdf", [n] => out (marginalPdfRanges n.toNat!)
+    | _, _ => some "ERR parse"
   | _ => none
 
 end VirVerif.Drv
